@@ -407,46 +407,7 @@ def _staterror(ctx, rid, repo):
     rel = "src/pyhf/modifiers/staterror.py"
     fin = repo.method(rel, "staterror_builder", "finalize")
     ctx.touch(fin)
-    d = Deps(fin.node)
-    site = f"{rel}::staterror_builder.finalize"
-    # sigmas <- relerrs <- sqrt( sum(axis=0)( [ (uncrt/nomsall)**2 ... ] ) ), nomsall <- sum(axis=0)([nom_data ... if mask.any()])
-    sq = [c for c in A.calls_in(fin.node) if A.call_attr(c) == "sqrt"]
-    sums = [c for c in A.calls_in(fin.node) if A.call_attr(c) == "sum"]
-    sq_targets = set()
-    for n in ast.walk(fin.node):
-        if isinstance(n, ast.Assign) and isinstance(n.value, ast.Call) and A.call_attr(n.value) == "sqrt":
-            sq_targets |= set(A.assigned_names(n.targets[0]))
-    ok_sqrt = bool(sq_targets)
-    quad = None
-    nomsum = None
-    for c in sums:
-        ax = {k.arg: A.const_value(k.value) for k in c.keywords}.get("axis", "absent")
-        txt = A.unparse(c.args[0]) if c.args else ""
-        pows = [n for n in ast.walk(c) if isinstance(n, ast.BinOp) and isinstance(n.op, ast.Pow) and A.const_value(n.right) == 2]
-        if pows and any(isinstance(p.left, ast.BinOp) and isinstance(p.left.op, ast.Div) and "uncrt" in A.unparse(p.left.left) and "nomsall" in A.unparse(p.left.right) for p in pows):
-            quad = (c, ax)
-        elif "nom_data" in txt and "mask" in txt:
-            nomsum = (c, ax)
-    if quad and quad[1] == 0:
-        ctx.holds(rid, site, "relative errors: sum over samples (axis 0) of (uncrt / nomsall)^2")
-    else:
-        ctx.violated(rid, fin, "relerrs", "the staterror width is not the sum over samples of (uncertainty / total nominal)^2", expected="sum([[(uncrt/nomsall)**2 ...] per sample], axis=0)", node=fin.node)
-    if nomsum and nomsum[1] == 0 and any(isinstance(g, ast.comprehension) and g.ifs and "any" in A.unparse(g.ifs[0]) for g in ast.walk(nomsum[0])):
-        ctx.holds(rid, site, "total nominal: sum over the samples that carry the modifier (mask.any())")
-    else:
-        ctx.violated(rid, fin, "nomsall", "the nominal total of the staterror width is not the sum over the samples that carry the modifier", node=fin.node)
-    rp_calls = [c for c in A.calls_in(fin.node) if A.call_attr(c) == "required_parset" and c.args]
-    flows = any(d.roots_of(c.args[0]) & sq_targets for c in rp_calls)
-    # the sqrt must be taken of the quadrature sum
-    quad_names = set()
-    for n in ast.walk(fin.node):
-        if isinstance(n, ast.Assign) and quad and any(x is quad[0] for x in ast.walk(n.value)):
-            quad_names |= set(A.assigned_names(n.targets[0]))
-    sq_of_quad = any(isinstance(n, ast.Assign) and isinstance(n.value, ast.Call) and A.call_attr(n.value) == "sqrt" and n.value.args and (A.names_loaded(n.value.args[0]) & quad_names or (quad and any(x is quad[0] for x in ast.walk(n.value)))) for n in ast.walk(fin.node))
-    if ok_sqrt and flows and sq_of_quad:
-        ctx.holds(rid, site, "sigmas = sqrt(relerrs)[mask]")
-    else:
-        ctx.violated(rid, fin, "sigmas", "sigma is not the square root of the quadrature sum", expected="sqrt(relerrs)", node=fin.node)
+    # the width formula itself is decided by interpretation (_staterror_widths); here only what the builder asks for
     rp = repo.func(rel, "required_parset")
     ctx.touch(rp)
     try:
